@@ -279,6 +279,15 @@ def eval_spec(expr, env, old_env, strict=False):
             return node
 
     tree = OldRewriter().visit(tree)
+
+    class LazyImplies(ast.NodeTransformer):
+        def visit_Call(self, node):
+            self.generic_visit(node)
+            if isinstance(node.func, ast.Name) and node.func.id == "implies" and len(node.args) == 2:
+                return ast.copy_location(ast.BoolOp(op=ast.Or(), values=[ast.UnaryOp(op=ast.Not(), operand=node.args[0]), node.args[1]]), node)
+            return node
+
+    tree = LazyImplies().visit(tree)
     if not strict:
         tree = _Tolerant().visit(tree)
     ast.fix_missing_locations(tree)
@@ -314,9 +323,26 @@ def run_replay(desc, contract, clause_name=None):
     except Exception as e:
         return dict(out, verdict="requires-fail", detail="requires raised %s: %s" % (type(e).__name__, e))
     memo = {}
-    old_env = {k: copy.deepcopy(v, memo) for k, v in env.items() if k != "__module__"}
-    # call the real function
-    if "." in rest:
+    old_env = {k: snapshot(v, memo) for k, v in env.items() if k != "__module__"}
+    # call the real function (or, for a contract on a loop body, execute the real statements of that body)
+    frag = contract.get("fragment")
+    if frag is not None:
+        import inspect, textwrap
+
+        cls, meth = rest.split(".", 1) if "." in rest else (None, rest)
+        fobj = getattr(getattr(mod, cls), meth) if cls else getattr(mod, meth)
+        src = textwrap.dedent(inspect.getsource(fobj))
+        ftree = ast.parse(src)
+        hits = [n for n in ast.walk(ftree) if isinstance(n, ast.For) and ast.unparse(n.iter).replace('"', "'") == frag["iter"].replace('"', "'")]
+        loop = ast.For(target=ast.Name(id="_once", ctx=ast.Store()), iter=ast.List(elts=[ast.Constant(0)], ctx=ast.Load()), body=hits[0].body, orelse=[])
+        code = compile(ast.fix_missing_locations(ast.Module(body=[loop], type_ignores=[])), "<fragment of %s>" % desc["function"], "exec")
+        fenv = dict(vars(mod))
+        fenv.update({k: v for k, v in env.items() if k != "__module__"})
+
+        def call():
+            exec(code, fenv)
+
+    elif "." in rest:
         cls, meth = rest.split(".", 1)
         if meth.endswith(".setter"):
             name = meth[: -len(".setter")]
@@ -358,6 +384,38 @@ def run_replay(desc, contract, clause_name=None):
     if failed:
         return dict(out, verdict="violates", detail="clauses failing on the real code: %s" % failed, failed=failed)
     return dict(out, verdict="holds", detail="all selected clauses hold on the real code for this input")
+
+
+def snapshot(x, memo):
+    """structural deep copy that does not use the classes' own __deepcopy__/__getstate__ hooks (objects built by the
+    replay harness carry only the fields of the schema)"""
+    if id(x) in memo:
+        return memo[id(x)]
+    if isinstance(x, np.ndarray):
+        y = x.copy()
+    elif isinstance(x, (int, float, str, bool, type(None), np.generic, tuple, frozenset)):
+        return x
+    elif isinstance(x, list):
+        y = []
+        memo[id(x)] = y
+        y.extend(snapshot(v, memo) for v in x)
+        return y
+    elif isinstance(x, dict):
+        y = type(x)() if type(x) is dict else {}
+        memo[id(x)] = y
+        for k, v in x.items():
+            y[k] = snapshot(v, memo)
+        return y
+    elif hasattr(x, "__dict__"):
+        y = object.__new__(type(x))
+        memo[id(x)] = y
+        for k, v in x.__dict__.items():
+            y.__dict__[k] = snapshot(v, memo)
+        return y
+    else:
+        y = copy.copy(x)
+    memo[id(x)] = y
+    return y
 
 
 def jsonable(x):
